@@ -3,7 +3,7 @@ from fractions import Fraction
 
 from ..common import rng
 from ..drivers import emitters, programs, targeted
-from ._twin import replay_programs, run_programs
+from ._twin import replay_programs, run_programs, run_suite
 
 
 def check(run, tier):
@@ -30,6 +30,9 @@ def check(run, tier):
         progs.append(programs.worklist_program(r, f"C09/p{i}", dev, r.randint(1, 4), unit=Fraction(1, 4), maxunits=60, wlmax=r.choice([7, 19]),
                                                comps=False, transfer_kw={"kwargs": True}, labware_kw=True))
     run_programs(run, progs)
+
+    # the repository's own test-suite, recorded and judged step by step
+    run_suite(run)
 
 
 def replay(run, rp):
